@@ -110,6 +110,21 @@ impl<const N: usize> BytesN<N> {
     #[verifier::external_body]
     pub fn to_array(&self) -> (r: [u8; N]) ensures r@ == self@ { unimplemented!() }
     #[verifier::external_body]
+    pub fn len(&self) -> (r: u32) ensures r as int == self@.len(), r as int == N { unimplemented!() }
+    #[verifier::external_body]
+    pub fn is_empty(&self) -> (r: bool) ensures r == (self@.len() == 0) { unimplemented!() }
+    #[verifier::external_body]
+    pub fn get(&self, i: u32) -> (r: Option<u8>)
+        ensures r == (if (i as int) < self@.len() { Some(self@[i as int]) } else { None::<u8> }),
+    { unimplemented!() }
+    /// traps when out of range
+    #[verifier::external_body]
+    pub fn get_unchecked(&self, i: u32) -> (r: u8) ensures (i as int) < self@.len(), r == self@[i as int] { unimplemented!() }
+    #[verifier::external_body]
+    pub fn first(&self) -> (r: Option<u8>) ensures r == (if self@.len() > 0 { Some(self@[0]) } else { None::<u8> }) { unimplemented!() }
+    #[verifier::external_body]
+    pub fn last(&self) -> (r: Option<u8>) ensures r == (if self@.len() > 0 { Some(self@[self@.len() - 1]) } else { None::<u8> }) { unimplemented!() }
+    #[verifier::external_body]
     pub fn to_bytes(&self) -> (r: Bytes) ensures r@ == self@ { unimplemented!() }
 }
 
